@@ -234,8 +234,11 @@ def covers(cur, ref):
         rc = sorted(sh for sh, ls in ref[1] if sh.startswith('int:'))
         return rl <= cl and cc == rc
     if k == 'range':
-        return (cur[1] == ref[1] and strip_abs(cur[2]) == strip_abs(ref[2]) and cur[3] == ref[3] and
-                strip_abs(cur[4]) == strip_abs(ref[4]) and cur[5] == ref[5])
+        # |x| < |q| is stronger than x < q, never the other way round
+        def side_ok(c, r):
+            return c == r or strip_abs(c) == r
+        return (cur[1] == ref[1] and side_ok(cur[2], ref[2]) and cur[3] == ref[3] and
+                side_ok(cur[4], ref[4]) and cur[5] == ref[5])
     if k in ('call', 'notcall'):
         return cur[1] == ref[1] and set(ref[2]) <= set(cur[2])
     if k == 'invertible':
